@@ -50,13 +50,20 @@ structure Ghost where
   skipped : List Int := []
   confirmed : Bool := false
   validated : Bool := true
+  /-- perspective (from the `init` line) -/
+  client : Bool := true
+  /-- the peer MAY have completed address validation (`peerCompletedAddressValidation`): a server from the
+      start; a client as soon as any ACK outside the Initial space was handed to `ReceivedAck` (conservative:
+      whatever its outcome) or the Handshake space was dropped.  While this is false it is false in the handler. -/
+  completed : Bool := false
   bytesSent : Int := 0
   bytesReceived : Int := 0
   /-- a panic or an internal BUG error happened: the connection is gone, nothing is judged any more -/
   broken : Bool := false
 deriving Repr
 
-def Ghost.init (isClient validated : Bool) : Ghost := { validated := isClient || validated }
+def Ghost.init (isClient validated : Bool) : Ghost :=
+  { validated := isClient || validated, client := isClient, completed := !isClient }
 
 abbrev Fail := String × String × String
 
@@ -131,6 +138,29 @@ def Ghost.checkState (g : Ghost) (implBif implAlarm : Int) : List Fail :=
      [("bif_balanced", "-", s!"bytes_in_flight={implBif} but the outstanding ack-eliciting packets add up to {lo}..{hi}")] else []) ++
   (if g.needsTimer ∧ implAlarm = 0 then
      [("timer_armed", "-", "ack-eliciting data outstanding, not amplification-limited, but no loss-detection deadline")] else [])
+
+/-- certainly not an outstanding packet any more: never ack-eliciting, or dropped with its space, or its frames
+    were reported (acked: removed; lost: declared lost) -/
+def GPkt.surelyNotOutstanding (p : GPkt) (g : Ghost) : Bool :=
+  (!p.ackEliciting && !p.mtu && !p.probe) || p.gone || p.reportedAny || g.dropped.getD p.space false
+
+/-- the handler is, for sure, in the state in which `getPTOTimeAndSpace` arms the anti-deadlock PTO: handshake
+    not confirmed, peer address validation not completed, no Initial or Handshake packet outstanding (then the
+    Handshake space still exists) -/
+def Ghost.antiDeadlockState (g : Ghost) : Bool :=
+  !g.broken && !g.completed && !g.confirmed && !(g.dropped.getD 1 false) &&
+  g.pkts.all fun p => p.space ≥ 2 || p.surelyNotOutstanding g
+
+/-- **anti_deadlock_probe_when_armed**: `OnLossDetectionTimeout` was called in the anti-deadlock state with no loss
+    timer pending (`lossTimesZero`: the `lossTime` fields of the state the implementation printed after the previous
+    operation); it must return normally with a probe queued for the Initial space (the Handshake space once Initial
+    was dropped) — however many bytes are in flight. -/
+def Ghost.antiDeadlockProbe (g : Ghost) (lossTimesZero : Bool) (resTxt : String) (implNP implPM implBif : Int) : List Fail :=
+  if !(g.antiDeadlockState && lossTimesZero) then [] else
+  let want := if g.dropped.getD 0 false then sendPTOHandshake else sendPTOInitial
+  if resTxt.startsWith "ok" ∧ implNP ≥ 1 ∧ implPM = want then [] else
+    [("anti_deadlock_probe_when_armed", "-",
+      s!"the loss-detection timer fired before handshake confirmation with no Initial/Handshake packet outstanding and address validation not completed (bytes_in_flight={implBif}) but no anti-deadlock probe was queued: result `{resTxt}`, numProbesToSend={implNP}, ptoMode={implPM} (expected {want})")]
 
 def Ghost.dropSpace (g : Ghost) (sp : Nat) : Ghost :=
   { g with pkts := g.pkts.map fun p => if p.space = sp then { p with gone := true } else p,
